@@ -27,6 +27,29 @@ def _norm(x):
     return x
 
 
+def plain(x, depth=0):
+    """JSON-able copy of a witness / sample: foreign objects become short reprs"""
+    if x is None or isinstance(x, (bool, int, float, str)):
+        return x
+    if isinstance(x, (bytes, bytearray)):
+        return {"__bytes__": bytes(x[:64]).hex(), "len": len(x)}
+    if depth > 6:
+        return repr(x)[:80]
+    if isinstance(x, dict):
+        return {str(k) if not isinstance(k, (str, int)) else k: plain(v, depth + 1) for k, v in list(x.items())[:60]}
+    if isinstance(x, (list, tuple, set, frozenset)):
+        return [plain(v, depth + 1) for v in list(x)[:60]]
+    try:
+        import numpy as np
+        if isinstance(x, np.ndarray):
+            return plain(x.tolist()[:60], depth + 1)
+        if isinstance(x, np.generic):
+            return x.item()
+    except Exception:
+        pass
+    return repr(x)[:120]
+
+
 class Ctx:
     """What a property module sees while running a chunk."""
 
@@ -69,12 +92,12 @@ class Ctx:
         if nontrivial:
             self.nontrivial.add(h8(dkey if dkey is not None else (self.spec, case)))
         if sample is not None and len(self.samples) < 3:
-            self.samples.append(sample)
+            self.samples.append(plain(sample))
 
     def count(self, name, n=1):
         self.counters[name] = self.counters.get(name, 0) + n
 
-    def violation(self, key: str, case=None, **detail):
+    def violation(self, key: str, /, case=None, **detail):
         """a property violation: key names the mechanism (operation, field, direction)"""
         n = self._vkeys.get(key, 0)
         self._vkeys[key] = n + 1
@@ -83,12 +106,12 @@ class Ctx:
         self.violations.append({
             "key": f"{self.pid}:{key}" if not key.startswith(self.pid + ":") else key,
             "spec": self.spec,
-            "case": case if case is not None else self._case,
-            "detail": detail,
+            "case": plain(case if case is not None else self._case),
+            "detail": plain(detail),
         })
 
     def note(self, name, value):
-        self.extra[name] = value
+        self.extra[name] = plain(value)
 
     def result(self):
         return {
